@@ -290,7 +290,8 @@ def _run_sk(ctx, spec, rng):
     det = {"dims": [da, db], "k": k, "kind": kind, "lower": lo, "upper": up, "attained_by_explicit_vectors": attained, "operator_norm": opn}
     sig = ((da, db), k, kind)
     scale = 1 + opn
-    ok = lo <= up + 1e-6 * scale and up >= attained - 1e-5 * scale and lo <= opn + 1e-6 * scale and up <= opn + 1e-5 * scale
+    # the upper bound can come from an SDP (cvxpy default solver): tolerance class T3b (observed: lower - upper = 7e-6 relative)
+    ok = lo <= up + 2e-4 * scale and up >= attained - 2e-4 * scale and lo <= opn + 1e-6 * scale and up <= opn + 2e-4 * scale
     ctx.check("O4:sk_operator_norm", ok, sig=sig, nt=k < m, mech="sk_operator_norm:bracket-violated", detail=det)
     ctx.sample("O4:sk_operator_norm", det)
     if k >= m:
